@@ -88,7 +88,29 @@ TReopen == Is("reopen") /\ Step /\ (Ok(Ev.out) = TRUE)
 TSizes == Is("sizes") /\ Step /\ (\A i \in 3..Len(Ev.bytes) : Ev.bytes[i] <= Ev.bytes[i - 1]) /\ UNCHANGED dbvars
 TNoop   == (Is("flush") \/ Is("analyze")) /\ Step /\ (Ok(Ev.out) = TRUE) /\ UNCHANGED dbvars
 
-TNext == TReset \/ TBegin \/ TSelect \/ TDml \/ TBatch \/ TCreate \/ TDrop \/ TIndex \/ TOpaque
+(* ---- crash images (C01 C02 C08): the database files as they were after the k-th write of the engine, opened by a
+   fresh process.  `after` the events recorded so far, with possibly one call in flight (its transaction `tx`), the
+   reopened database must open, and every table must read exactly the committed state - with or without the
+   in-flight transaction, as a whole.  A crash read does not change the state: the history simply goes on. ---- *)
+SeesC(C, w) == w \in C
+RowVisC(C, r) == IF r.cr \notin C THEN FALSE ELSE IF r.del \cap C # {} THEN FALSE
+                 ELSE \E i \in 1..Len(r.vers) : r.vers[i].by \in C
+RowValsC(C, r) == SelectSeq(r.vers, LAMBDA v : v.by \in C)[1].vals
+TabVisC(C, o) == o.cr \in C /\ o.drop \cap C = {}
+TabRowsC(C, o) == LET vis == SelectSeq(o.rows, LAMBDA r : RowVisC(C, r)) IN [i \in 1..Len(vis) |-> RowValsC(C, vis[i])]
+\* tbls: sequence of [name, out] where out is [k |-> "rows", rows |-> ..] or [k |-> "err"]
+MatchesC(C, tbls) ==
+  \A i \in 1..Len(tbls) :
+    LET cand == {j \in 1..Len(tabs) : tabs[j].name = tbls[i].name /\ TabVisC(C, tabs[j])} IN
+    IF cand = {} THEN tbls[i].out.k = "err"
+    ELSE IF tbls[i].out.k = "rows" THEN BagEq(TabRowsC(C, tabs[CHOOSE j \in cand : TRUE]), tbls[i].out.rows) ELSE FALSE
+CrashOk(e) ==
+  IF ~Ok(e.open) THEN FALSE                                                   \* C08: the database always reopens
+  ELSE IF MatchesC(committed, e.tables) THEN TRUE                             \* C01 + C02: exactly the acknowledged transactions
+  ELSE IF e.inflight THEN MatchesC(committed \ {e.tx}, e.tables) ELSE FALSE   \* ... or without the one whose commit was in progress
+TCrashRead == Is("crashread") /\ Step /\ (CrashOk(Ev) = TRUE) /\ UNCHANGED dbvars
+
+TNext == TCrashRead \/ TReset \/ TBegin \/ TSelect \/ TDml \/ TBatch \/ TCreate \/ TDrop \/ TIndex \/ TOpaque
          \/ TCommit \/ TRollback \/ TVacuum \/ TReopen \/ TNoop \/ TSizes
 TSpec == TInit /\ [][TNext]_tvars
 
